@@ -88,6 +88,16 @@ func registerHarnessAPI(e *Engine) {
 		m.recordInput(name, v)
 		return v
 	}
+	in[P+"verifFreshProcess"] = func(m *Machine, fr *frame, a []Value) Value {
+		// a new process: every package-level variable of the program is re-initialised
+		for g := range m.globals {
+			if g.Pkg == m.eng.mainPkg {
+				delete(m.globals, g)
+			}
+		}
+		m.callSSA(nil, 0, m.eng.mainPkg.Func("init"), nil, nil)
+		return nil
+	}
 	in[P+"verifAssume"] = func(m *Machine, fr *frame, a []Value) Value {
 		c := boolTerm(a[0])
 		if c.kind == KConst {
@@ -297,7 +307,13 @@ func (m *Machine) assert(c *Term, id string) {
 		ob.Cond = ob.Cond[:400] + "..."
 	}
 	// verdict query first (uninterpreted predicates, no witness hygiene): unsat = holds
-	r, _ := m.solver.CheckOn(1, q, false) // cvc5 first: predicates stay uninterpreted in verdict queries
+	// cvc5 first for string queries (predicates stay uninterpreted in verdict queries); z3 first
+	// for bit-vector arithmetic (byte-level code such as encoding/base64)
+	first := 1
+	if len(subterms(q, func(t *Term) bool { return t.kind == KApp && !t.uf && strings.HasPrefix(t.op, "bv") })) > 0 {
+		first = 0
+	}
+	r, _ := m.solver.CheckOn(first, q, false)
 	var mod *Model
 	if r == Sat {
 		if m.job != nil && !m.job.modelBudget(id) {
